@@ -24,6 +24,7 @@ EXPLANATION = (
     "admission test); R18.3 the per-tick reset stores zero and is on the Network.pre_timestep path for every link and "
     "the air space; R18.4 the load is accounted BEFORE the frame is handed to the receiver (sibling agreement between "
     "Link.transmit_frame and AirSpace.transmit) - otherwise a reply sent during delivery is admitted against a stale "
+    "R18.5 the numeric settings this property depends on are never tested by truthiness (`x or default`, `if x:`), because 0 is a legal value for them. "
     "load - and the accounted amount is the same frame.size_Mbits the admission test used. NOT decided: the numeric "
     "bound itself over all traffic patterns (runtime arithmetic)."
 )
@@ -232,3 +233,5 @@ def check(ctx: Ctx) -> None:
     r18_2(ctx)
     r18_3(ctx)
     r18_4(ctx)
+    from .common import falsy_numeric
+    falsy_numeric(ctx, "R18.5", r"bandwidth|capacity|speed|load", "bandwidths, capacities and loads")
